@@ -216,6 +216,13 @@ func corsAndContextEffects(c *core.Ctx, R string) {
 					watcher = u.Prog.LitUnit(fl)
 				}
 			}
+			// the same goroutine written as a private method: `go c.awaitClose()` (closure → method)
+			if cl.Go && cl.Inlined == nil && cl.Callee != nil {
+				if h := c.P.UnitOf(cl.Callee); h != nil && (c.P.IsTransparent(cl.Callee) || strings.HasPrefix(h.Key, u.Key+"$")) {
+					started = true // a novel helper, or the closure recovered under its baseline key
+					watcher = h
+				}
+			}
 		}
 		c.Check(R, "types.NewHttpContext/watcher-started-as-goroutine", u.Pos(), started && watcher != nil, "the constructor returns; the watcher waits in its own goroutine")
 		if watcher != nil {
@@ -267,6 +274,23 @@ func corsAndContextEffects(c *core.Ctx, R string) {
 				}
 				if !v && !g.GuardedBy(r.Loc, rec) {
 					nF++
+				}
+			}
+		}
+		// the same any-match written with the library helper: return slices.ContainsFunc(list, func(v) bool { return c.isOriginAllowed(origin, v) })
+		if !okT {
+			for _, cl := range u.Calls() {
+				if cl.Key != "slices.ContainsFunc" || len(cl.Expr.Args) != 2 {
+					continue
+				}
+				if k := closureArg(u, cl, 1); k != nil {
+					for _, r := range returnsIn(k) {
+						if len(r.Stmt.Results) == 1 {
+							if ce, key := k.AsCall(r.Stmt.Results[0]); ce != nil && key == "types.(*cors).isOriginAllowed" {
+								okT = true
+							}
+						}
+					}
 				}
 			}
 		}
